@@ -557,9 +557,15 @@ const (
 func WalkFrom(blk *ssa.BasicBlock, from ssa.Instruction, visit func(ssa.Instruction) int,
 	edgeOK func(b *ssa.BasicBlock, succ int) bool) []ssa.Instruction {
 	var hits []ssa.Instruction
-	seen := map[*ssa.BasicBlock]bool{}
-	var walkBlock func(b *ssa.BasicBlock, start int)
-	walkBlock = func(b *ssa.BasicBlock, start int) {
+	// The search is path-sensitive for boolean flags: a block is explored once per predecessor it is
+	// entered from, and an `if flag` whose flag is a phi of this block takes only the successor that
+	// agrees with the value the phi receives on that entry edge (a constant, or the very condition the
+	// predecessor branched on). `found := false; if ... { found = true }; if found {...}` and
+	// `if exists && expired { exists = false }; if !exists {...}` do not produce infeasible paths.
+	type state struct{ b, pred *ssa.BasicBlock }
+	seen := map[state]bool{}
+	var walkBlock func(b *ssa.BasicBlock, start int, pred *ssa.BasicBlock)
+	walkBlock = func(b *ssa.BasicBlock, start int, pred *ssa.BasicBlock) {
 		for i := start; i < len(b.Instrs); i++ {
 			switch visit(b.Instrs[i]) {
 			case Stop:
@@ -569,13 +575,21 @@ func WalkFrom(blk *ssa.BasicBlock, from ssa.Instruction, visit func(ssa.Instruct
 				return
 			}
 		}
+		only := -1
+		if pred != nil {
+			only = phiBranch(b, pred)
+		}
 		for si, s := range b.Succs {
+			if only >= 0 && si != only {
+				continue
+			}
 			if edgeOK != nil && !edgeOK(b, si) {
 				continue
 			}
-			if !seen[s] {
-				seen[s] = true
-				walkBlock(s, 0)
+			st := state{s, b}
+			if !seen[st] {
+				seen[st] = true
+				walkBlock(s, 0, b)
 			}
 		}
 	}
@@ -588,8 +602,65 @@ func WalkFrom(blk *ssa.BasicBlock, from ssa.Instruction, visit func(ssa.Instruct
 			}
 		}
 	}
-	walkBlock(blk, start)
+	walkBlock(blk, start, nil)
 	return hits
+}
+
+// phiBranch: block b, entered from pred, ends with an If on a bool phi of b whose value on that entry
+// edge is known; returns the only feasible successor index, or -1.
+func phiBranch(b, pred *ssa.BasicBlock) int {
+	if len(b.Instrs) == 0 {
+		return -1
+	}
+	iff, ok := b.Instrs[len(b.Instrs)-1].(*ssa.If)
+	if !ok {
+		return -1
+	}
+	c, pol := normCond(iff.Cond, true)
+	ph, ok := c.(*ssa.Phi)
+	if !ok || ph.Block() != b {
+		return -1
+	}
+	pi := -1
+	for i, p := range b.Preds {
+		if p == pred {
+			if pi >= 0 {
+				return -1 // both edges of the predecessor's branch arrive here
+			}
+			pi = i
+		}
+	}
+	if pi < 0 || pi >= len(ph.Edges) {
+		return -1
+	}
+	val, known := false, false
+	e := ph.Edges[pi]
+	if cb, isC := ConstBool(e); isC {
+		val, known = cb, true
+	} else if len(pred.Instrs) > 0 {
+		// the predecessor branched on this very value: the edge taken tells it
+		if pif, ok := pred.Instrs[len(pred.Instrs)-1].(*ssa.If); ok && pred.Succs[0] != pred.Succs[1] {
+			pc, ppol := normCond(pif.Cond, true)
+			ec, epol := normCond(e, true)
+			if pc == ec {
+				for si, sb := range pred.Succs {
+					if sb == b {
+						// cond pc is (si == 0) == ppol; e is pc with polarity epol
+						condTrue := (si == 0) == ppol
+						val, known = condTrue == epol, true
+					}
+				}
+			}
+		}
+	}
+	if !known {
+		return -1
+	}
+	// the If takes Succs[0] when iff.Cond is true; iff.Cond == (phi == pol)
+	if val == pol {
+		return 0
+	}
+	return 1
 }
 
 // ReachesWithout: is there a path from the entry of f to target that passes no
@@ -1760,10 +1831,15 @@ func helperPerforms(h *ssa.Function, direct func(ssa.Instruction) bool, mode str
 	n := 0
 	for _, ret := range rets {
 		if mode == "true" {
-			if len(ret.Results) != 1 {
+			// the verdict is the last result (a bool: `ok`); returns that answer false need not perform
+			if len(ret.Results) < 1 {
 				return false
 			}
-			if cb, isC := ConstBool(RetVal(ret, 0)); isC && !cb {
+			last := len(ret.Results) - 1
+			if bt, ok := ret.Results[last].Type().Underlying().(*types.Basic); !ok || bt.Kind() != types.Bool {
+				return false
+			}
+			if cb, isC := ConstBool(RetVal(ret, last)); isC && !cb {
 				continue
 			}
 		}
@@ -1793,14 +1869,48 @@ func performsVia(in ssa.Instruction, direct func(ssa.Instruction) bool, at *ssa.
 	if helperPerforms(h, direct, "all") {
 		return true
 	}
-	if at != nil && h.Signature.Results().Len() == 1 {
+	if at != nil && h.Signature.Results().Len() >= 1 {
 		for _, ft := range localFacts(at) {
-			if ft.Cond == ssa.Value(c) && ft.Pol && helperPerforms(h, direct, "true") {
+			if !ft.Pol {
+				continue
+			}
+			isVerdict := ft.Cond == ssa.Value(c)
+			if ex, ok := ft.Cond.(*ssa.Extract); ok && ex.Tuple == ssa.Value(c) && ex.Index == h.Signature.Results().Len()-1 {
+				isVerdict = true
+			}
+			if isVerdict && helperPerforms(h, direct, "true") {
 				return true
 			}
 		}
 	}
 	return false
+}
+
+// verdictFalseEdge: the edge (b -> succ) is the one on which the bool verdict (last result) of a
+// same-package helper call is false: paths through it are the helper's "nothing to do" answer.
+func verdictFalseEdge(b *ssa.BasicBlock, succ int) (*ssa.Call, bool) {
+	iff, ok := b.Instrs[len(b.Instrs)-1].(*ssa.If)
+	if !ok {
+		return nil, false
+	}
+	c, pol := normCond(iff.Cond, succ == 0)
+	var call *ssa.Call
+	switch x := c.(type) {
+	case *ssa.Call:
+		call = x
+	case *ssa.Extract:
+		if cc, ok := x.Tuple.(*ssa.Call); ok && x.Index == cc.Call.Signature().Results().Len()-1 {
+			call = cc
+		}
+	}
+	if call == nil || pol {
+		return nil, false
+	}
+	h := call.Common().StaticCallee()
+	if h == nil || h.Pkg != b.Parent().Pkg {
+		return nil, false
+	}
+	return call, true
 }
 
 // onlyCalledFromAllowed: f (an unexported helper) is reachable only through allowed functions:
@@ -1939,4 +2049,65 @@ func checkCaseConstantAgreement(r *Report, rule, pkg, enumType string, minSiblin
 		}
 		r.Ob(rule, f.Pos(), bad == "", "save / load / remove of the persisted list choose the same storage keys for the same list type ("+bad+")", r.P.FuncName(f), "case-constants-agree")
 	}
+}
+
+// originDeep is originSummary with calls of same-module functions (that have a body and one
+// result value of interest) expanded: the call root is replaced by the origins of what the callee
+// returns, its parameters rewritten to the origins of the call's arguments. An identity obtained
+// through resolveClientID(streamPacket) or a shared getter still shows where it really comes from.
+func originDeep(v ssa.Value, depth int) string {
+	var parts []string
+	seen := map[string]bool{}
+	for _, rt := range Origins(v) {
+		s := rootDeep(rt, depth)
+		if !seen[s] {
+			seen[s] = true
+			parts = append(parts, s)
+		}
+	}
+	sort.Strings(parts)
+	return strings.Join(parts, ",")
+}
+
+func rootDeep(rt Root, depth int) string {
+	base := rt.Kind + ":" + rt.Desc
+	if depth <= 0 || rt.Kind != "call" {
+		return base
+	}
+	var c *ssa.Call
+	idx := 0
+	switch x := rt.V.(type) {
+	case *ssa.Call:
+		c = x
+	case *ssa.Extract:
+		c, _ = x.Tuple.(*ssa.Call)
+		idx = x.Index
+	}
+	if c == nil {
+		return base
+	}
+	h := c.Common().StaticCallee()
+	if h == nil || len(h.Blocks) == 0 || h.Pkg == nil || !strings.HasPrefix(h.Pkg.Pkg.Path(), Module) {
+		return base
+	}
+	var outs []string
+	for _, ret := range Returns(h) {
+		if idx >= len(ret.Results) {
+			continue
+		}
+		o := originDeep(RetVal(ret, idx), depth-1)
+		for i, hp := range h.Params {
+			if i < len(c.Call.Args) {
+				a := originDeep(c.Call.Args[i], depth-1)
+				o = strings.ReplaceAll(o, "(param:"+hp.Name()+")", "("+a+")")
+				o = strings.ReplaceAll(o, "param:"+hp.Name(), a)
+			}
+		}
+		outs = append(outs, o)
+	}
+	if len(outs) == 0 {
+		return base
+	}
+	sort.Strings(outs)
+	return base + "{" + strings.Join(outs, "|") + "}"
 }
